@@ -65,6 +65,12 @@ def claimGuard (ws : List WProp) : Bool :=
   defaultReaders.all (readerGuard ws) && decide (expectKeys ws).Nodup &&
   defaultReaders.all (fun r => !(decide (r.names.length = 1) && (expectNames ws r).isSome && (wsNames ws).contains r.attr))
 
+/-- ASCII only: the ASCII scalar reader never learns the property's type (known finding C04-ascii-uchar-scalar), so inside
+the guard every `uchar` writer must be claimed as a whole by a VECTOR reader (`red green blue` as Color, …) -/
+def asciiGuard (ws : List WProp) : Bool :=
+  ws.all (fun w => w.ty != .uchar ||
+    defaultReaders.any (fun r => decide (r.names.length ≠ 1) && ((expectNames ws r).map (·.1) == some w.names)))
+
 /-- the predicted claim stage as data: (attribute, names, type) of the default readers that fire, in reader order, then
 one scalar reader per remaining property, in header order -/
 def claimSpec (ws : List WProp) : List (Bytes × List Bytes × SType) :=
